@@ -2854,7 +2854,10 @@ func (d *decoderCborBytes) arrayEnd() {
 func (d *decoderCborBytes) interfaceExtConvertAndDecode(v interface{}, ext InterfaceExt) {
 
 	var vv interface{}
+
+	d.depthIncr()
 	d.decode(&vv)
+	d.depthDecr()
 	ext.UpdateExt(v, vv)
 
 }
@@ -6863,7 +6866,10 @@ func (d *decoderCborIO) arrayEnd() {
 func (d *decoderCborIO) interfaceExtConvertAndDecode(v interface{}, ext InterfaceExt) {
 
 	var vv interface{}
+
+	d.depthIncr()
 	d.decode(&vv)
+	d.depthDecr()
 	ext.UpdateExt(v, vv)
 
 }
